@@ -1,0 +1,26 @@
+//go:build verif
+
+package anytype
+
+import "unsafe"
+
+/*
+VerifListStorage exposes how a list is stored, for the verification harness only
+(compiled only with the build tag "verif").
+
+Parameters:
+  - l - list to inspect (plain or derived).
+
+Returns:
+  - address of the first slot of the backing array of the element slice (nil if the capacity is zero),
+  - length of the element slice,
+  - capacity of the element slice.
+*/
+func VerifListStorage(l List) (unsafe.Pointer, int, int) {
+	v := l.base().val
+	var first unsafe.Pointer
+	if cap(v) > 0 {
+		first = unsafe.Pointer(&v[:1][0])
+	}
+	return first, len(v), cap(v)
+}
